@@ -1137,8 +1137,10 @@ class Process(StateMachine, persistence.Savable, metaclass=ProcessStateMachineMe
             interrupt_exception = process_states.PauseInterruption(msg_text)
             self._set_interrupt_action_from_exception(interrupt_exception)
             self._pausing = self._interrupt_action
-            # Try to interrupt the state
-            self._state.interrupt(interrupt_exception)
+            # Try to interrupt the state, unless the request comes from a hook or listener during a transition: the
+            # state is not being executed then and step() carries the action out as soon as the transition is complete
+            if not self._transitioning:
+                self._state.interrupt(interrupt_exception)
             return cast(futures.CancellableAction, self._interrupt_action)
 
         msg = MessageBuilder.pause(msg_text)
@@ -1263,7 +1265,8 @@ class Process(StateMachine, persistence.Savable, metaclass=ProcessStateMachineMe
             interrupt_exception = process_states.KillInterruption(msg_text)
             self._set_interrupt_action_from_exception(interrupt_exception)
             self._killing = self._interrupt_action
-            self._state.interrupt(interrupt_exception)
+            if not self._transitioning:
+                self._state.interrupt(interrupt_exception)
             return cast(futures.CancellableAction, self._interrupt_action)
 
         msg = MessageBuilder.kill(msg_text)
@@ -1363,6 +1366,12 @@ class Process(StateMachine, persistence.Savable, metaclass=ProcessStateMachineMe
             else:
                 # Everything nominal so transition to the next state
                 self.transition_to(next_state)
+
+            # A request made by a hook or a listener during the transition could only be registered as the
+            # interrupt action (the process is still stepping): carry it out now, or it would be lost
+            action = self._interrupt_action
+            if action is not None and not action.done() and not self.has_terminated():
+                action.run(None)
 
         finally:
             self._stepping = False
